@@ -16,7 +16,7 @@ CLAIMED = {
    design="6 C09"),
  "C02": dict(
    text="Translation-validation style: the reduction pipeline is not ported; its observable output (legs and dependents per canonical graph) is checked on every run by the Coq function reduction_ok, proved sound for every n (C02_validator_sound: true implies closure equality w.r.t. the inductive Cl, dependents in the closure, accounting, one graph per component, exact star shape). Closure laws justifying the pipeline's moves (contraction, added product, transport) proved for all n. Inputs: exhaustive small, structured, uniform collections n<=8 with closure; 9..16 qubits with shape/accounting and the F2-span necessary condition.",
-   note="gen_components is used as the component count (its correctness theorem is part of C14). MorphFactory itself is validated per input, not verified. No axioms.",
+   note="gen_components is proved to be the partition into connected components of the anticommutation graph, and the generated algebra to be the union of the algebras of the components (C02_components_spec, C02_components_closure). In-place histories (classify, edit, classify) are validated stage by stage. MorphFactory itself is validated per input, not verified. No axioms.",
    technique="Coq-verified validator of the reduction's output (soundness theorem) + closure-law theorems; per-input validation",
    category="proof",
    design="6 C02"),
